@@ -94,6 +94,13 @@ class C14(Check):
                     for (w, fixed) in (("none", []), ("positive", []), ("none", [0]), ("positive", [0, 1])):
                         yield {"algo": algo, "shape": list(shape), "family": group["family"], "rank": rank, "weights": w, "fixed": fixed,
                                "container": "tuple", "K": K, "seed": seed, "cons": cons}
+        if algo in ("parafac", "non_negative_parafac", "non_negative_parafac_hals", "constrained_parafac"):
+            eq = [(i, j) for i in range(n) for j in range(i + 1, n) if shape[i] == shape[j]]
+            for rank in ranks:
+                for (i, j) in eq[:2]:
+                    for (w, fixed) in (("none", []), ("positive", []), ("none", [i])):
+                        yield {"algo": algo, "shape": list(shape), "family": group["family"], "rank": rank, "weights": w, "fixed": fixed,
+                               "container": "tuple", "K": K, "seed": seed, "alias": [i, j]}
         if algo in ("parafac", "non_negative_parafac", "non_negative_parafac_hals"):
             for rank in ranks:
                 for (w, fixed) in (("positive", []), ("partly-one", [0]), ("none", [0, 1]), ("none", [1, 0])):
@@ -163,6 +170,10 @@ class C14(Check):
             supplied = facs
         else:
             w, facs = itm.cp_init(shape, rank, seed, case["weights"], nonneg=nn)
+            if case.get("alias"):
+                ai, aj = case["alias"]
+                facs = list(facs)
+                facs[aj] = facs[ai].copy()  # two modes with equal factors (a symmetric model); variant 3 passes them as ONE array object
             if algo == "parafac2":
                 from vmc import values as V
                 # orthonormal projections: signed column selections of the identity (exact)
@@ -182,12 +193,14 @@ class C14(Check):
                 """variant 0: as specified; 1: weights absorbed into factor 0; 2: into the last factor (same tensor)."""
                 ww = None if w is None else w.copy()
                 fs = [f.copy() for f in facs]
-                if variant and ww is not None:
+                if variant in (1, 2) and ww is not None:
                     j = 0 if variant == 1 else len(fs) - 1
                     if algo == "parafac2" and variant == 1:
                         j = 0
                     fs[j] = fs[j] * ww[None, :]
                     ww = None
+                if variant == 3:
+                    fs[case["alias"][1]] = fs[case["alias"][0]]  # the same array object for both modes
                 if algo == "parafac2":
                     return (ww, fs, [p.copy() for p in projs])
                 if case["container"] == "object":
@@ -262,7 +275,7 @@ class C14(Check):
         chains = {}
         # bisimulation only where a block update is scale-equivariant after finitely many steps (exact solves, multiplicative
         # and HALS updates); ADMM inner iterations of constrained_parafac only agree in the limit (measured: 3e4 inner steps)
-        for variant in ((0, 1, 2) if (case["weights"] not in ("none",) and algo not in ("tucker", "non_negative_tucker_hals", "constrained_parafac")) else (0,)):
+        for variant in ((0, 3) if case.get("alias") else (0, 1, 2) if (case["weights"] not in ("none",) and algo not in ("tucker", "non_negative_tucker_hals", "constrained_parafac")) else (0,)):
             if variant and fixed and ((variant == 1 and 0 in fixed) or (variant == 2 and (n - 1) in fixed)):
                 continue  # do not re-express a factor that is declared fixed
             ch = []
@@ -325,6 +338,10 @@ class C14(Check):
                 a = dense_of(chains[0][k][0], chains[0][k][1])
                 b = dense_of(ch[k][0], ch[k][1])
                 if not (np.all(np.isfinite(a)) and np.all(np.isfinite(b))) or np.linalg.norm(a - b) > btol:
+                    if variant == 3:
+                        ctx.violation(f"{tag}/iterates-differ-when-two-modes-share-one-factor-array/step-{'0' if k == 0 else 'k'}",
+                                      f"{case}: iterate {k} differs by {np.linalg.norm(a - b)} between init factors given as two equal arrays and as one array object used for both modes")
+                        break
                     where = "factor0" if variant == 1 else "last-factor"
                     ctx.violation(f"{tag}/iterates-differ-when-weights-absorbed/weights-{wclass}/step-{'0' if k == 0 else 'k'}",
                                   f"{case}: iterate {k} from init (weights {wclass}) and from the same tensor with weights absorbed into the {where} differ by "
